@@ -9,6 +9,7 @@ import (
 	"archive/zip"
 	"bytes"
 	"io"
+	"strings"
 
 	xl "github.com/xuri/excelize/v2"
 )
@@ -39,6 +40,30 @@ func c05RewriteZip(data []byte, name string, fn func([]byte) []byte) []byte {
 		w, _ := zw.Create(e.Name)
 		w.Write(b)
 	}
+	zw.Close()
+	return out.Bytes()
+}
+
+// c05AddZipEntry copies a zip and appends one entry.
+func c05AddZipEntry(data []byte, name string, content []byte) []byte {
+	zr, err := zip.NewReader(bytes.NewReader(data), int64(len(data)))
+	if err != nil {
+		return data
+	}
+	var out bytes.Buffer
+	zw := zip.NewWriter(&out)
+	for _, e := range zr.File {
+		rc, err := e.Open()
+		if err != nil {
+			continue
+		}
+		b, _ := io.ReadAll(rc)
+		rc.Close()
+		w, _ := zw.Create(e.Name)
+		w.Write(b)
+	}
+	w, _ := zw.Create(name)
+	w.Write(content)
 	zw.Close()
 	return out.Bytes()
 }
@@ -86,6 +111,16 @@ func c05Witnesses() []c05Witness {
 		c05Witness{"pic-badcell-media", []string{"h.new", "h.pic " + s1 + " A-1 0 12", "h.save"}},
 		c05Witness{"hfimage-shared-media-delpic", []string{"h.new", "h.hfimage " + s1 + " 5", "h.pic " + s1 + " D6 0 28", "h.delpic " + s1 + " D6", "h.save"}},
 		c05Witness{"background-shared-media-delpic", []string{"h.new", "h.background " + s1 + " 1", "h.pic " + s1 + " A13 1 29", "h.delpic " + s1 + " A13", "h.save"}},
+		// parts shared inside one sheet: the same image twice, two comments, two form controls, two charts; delete one
+		c05Witness{"same-image-twice-delpic", []string{"h.new", "h.picbytes " + s1 + " A1 0 3", "h.picbytes " + s1 + " C1 0 3", "h.delpic " + s1 + " A1", "h.save",
+			"h.pic " + s1 + " E5 0 0", "h.pic " + s1 + " G5 0 0", "h.newsheet " + s2, "h.pic " + s2 + " A1 0 0", "h.delpic " + s1 + " G5", "h.save", "h.delpic " + s1 + " E5", "h.delpic " + s1 + " C1", "h.save"}},
+		c05Witness{"shared-vml-delete-one", []string{"h.new", "h.comment " + s1 + " A1 " + hx("Au") + " " + hx("c1"), "h.comment " + s1 + " B2 " + hx("Au") + " " + hx("c2"),
+			"h.formctl " + s1 + " D4 1 " + hx("b1"), "h.formctl " + s1 + " D8 4 " + hx("b2"), "h.delcomment " + s1 + " A1", "h.delformctl " + s1 + " D4", "h.save",
+			"h.delcomment " + s1 + " B2", "h.delformctl " + s1 + " D8", "h.save"}},
+		c05Witness{"two-charts-delete-one", []string{"h.new", "h.chart " + s1 + " E1 0 -1", "h.chart " + s1 + " E20 2 5", "h.delchart " + s1 + " E1", "h.save", "h.delchart " + s1 + " E20", "h.save"}},
+		// a worksheet spilled to a temp file at open (small UnzipXMLSizeLimit), rewritten with a StreamWriter
+		c05Witness{"spilled-sheet-streamed", []string{"h.new", "h.setrow " + s1 + " A1 " + hx(strings.Repeat("x", 300)) + " " + hx(strings.Repeat("y", 300)), "h.setrow " + s1 + " A2 " + hx(strings.Repeat("z", 600)),
+			"h.save", "h.reopenspill", "h.stream.new " + s1, "h.stream.row 1 A " + hx("a") + " " + hx("b"), "h.stream.flush", "h.save"}},
 		c05Witness{"vba-write", []string{"h.new", "h.vba", "h.save"}},
 		c05Witness{"rename-duplicate", []string{"h.new", "h.newsheet " + s2, "h.rensheet " + s1 + " " + s2, "h.save"}},
 		c05Witness{"dv-markup", []string{"h.new", "h.dv " + s1 + " " + hx("A1:A3") + " 4 1 " + hx("AND(A1<5,B1>\"&\")"), "h.save"}},
